@@ -60,6 +60,13 @@ class Ctx:
         return vals
 
     # ------------------------------------------------------------------ P2
+    def pmap_fresh(self, fn, items, procs=NCPU):
+        """like pmap, but every item runs in its own process forked from this (pristine) one; results are returned, not recorded"""
+        items = list(items)
+        ctx = multiprocessing.get_context("fork")
+        with ctx.Pool(procs) as pool:          # the pool workers never call the library themselves: each item runs in a grandchild
+            return pool.map(_FreshCall(fn), items, chunksize=max(1, len(items) // (procs * 16)))
+
     def pmap(self, fn, items, procs=NCPU):
         """run fn(case) -> [events] over items in forked worker processes (fresh objects per case)"""
         items = list(items)
@@ -178,6 +185,29 @@ class Ctx:
         except OSError:
             pass
 
+class _FreshCall:
+    """run fn(item) in a child forked for this item only and return its result"""
+    def __init__(self, fn): self.fn = fn
+    def __call__(self, item):
+        import pickle
+        r, w = os.pipe()
+        pid = os.fork()
+        if pid == 0:
+            try:
+                os.close(r)
+                data = pickle.dumps(_safe_call(self.fn, item))
+                with os.fdopen(w, "wb") as f:
+                    f.write(data)
+            finally:
+                os._exit(0)
+        os.close(w)
+        with os.fdopen(r, "rb") as f:
+            data = f.read()
+        os.waitpid(pid, 0)
+        if not data:
+            return [{"op": "exc", "exc": "ChildDied", "msg": "the forked child produced no result", "where": ""}]
+        return pickle.loads(data)
+
 class _SafeCall:
     def __init__(self, fn): self.fn = fn
     def __call__(self, item): return _safe_call(self.fn, item)
@@ -185,7 +215,9 @@ class _SafeCall:
 def _safe_call(fn, item):
     try:
         return fn(item)
-    except Exception as ex:      # the implementation raised where the driver expected a result
+    except (KeyboardInterrupt, SystemExit):
+        raise
+    except BaseException as ex:  # the implementation raised where the driver expected a result (pyo3 panics are BaseExceptions)
         return [{"op": "exc", "exc": type(ex).__name__, "msg": str(ex)[:200].encode("ascii", "replace").decode(),
                  "where": traceback.format_exc(limit=3)[-400:].encode("ascii", "replace").decode()}]
 
